@@ -656,7 +656,10 @@ class GCXS(SparseArray, NDArrayOperatorsMixin):
         if order not in {"C", None}:
             raise NotImplementedError("The 'order' parameter is not supported")
         if any(d == -1 for d in shape):
-            extra = int(self.size / np.prod([d for d in shape if d != -1]))
+            known = reduce(operator.mul, (d for d in shape if d != -1), 1)
+            if known == 0 or self.size % known != 0:
+                raise ValueError(f"cannot reshape array of size {self.size} into shape {shape}")
+            extra = self.size // known
             shape = tuple([d if d != -1 else extra for d in shape])
 
         if self.shape == shape:
